@@ -272,6 +272,8 @@ func main() {
 	vf.Main("C19", "model_checking", run)
 }
 
+var udpErrs int
+
 func run(c *vf.Ctx) {
 	c.Rule("TLC enumerates name kind x tld x qtype x qclass x membership in {resolve, friends, mappings}; each case is rendered into a real config/store/dns.Server and queried in several spellings (case, trailing dot, look-alike suffixes), via ServeDNS directly and via the real UDP server loop; replies judged by Resolver_Trace")
 	c.Assume("friend names are matched as configured in lower case (the property leaves spelling open); a query name is on the wire in ASCII")
@@ -331,7 +333,8 @@ func run(c *vf.Ctx) {
 			if err := s.srv.Start(); err != nil {
 				c.Fatal("start: %v", err)
 			}
-			client := &mdns.Client{Net: "udp", Timeout: 2 * time.Second}
+			client := &mdns.Client{Net: "udp", Timeout: 400 * time.Millisecond}
+			slow := &mdns.Client{Net: "udp", Timeout: 3 * time.Second} // second try of a query that got no reply (a loaded machine must not look like a silent server)
 			for ci, a := range g {
 				for sp := 0; sp < nSpell; sp++ {
 					spell := sp*3 + (ci+sp+li)%3 + sp
@@ -383,12 +386,16 @@ func run(c *vf.Ctx) {
 						c.Eval(1)
 						obsAll = append(obsAll, o2)
 						trace = append(trace, o2)
-					} else if strings.HasSuffix(name, ".") && (sp == 0 || c.Thorough()) {
+					} else if strings.HasSuffix(name, ".") && (sp == 0 || c.Thorough()) && udpErrs < 12 {
 						o2 := o
 						o2.Via = "udp"
 						r, _, err := client.Exchange(q, s.conn.LocalAddr().String())
 						if err != nil {
+							r, _, err = slow.Exchange(q, s.conn.LocalAddr().String())
+						}
+						if err != nil {
 							o2.Rcode = "error:" + err.Error()
+							udpErrs++ // after a dozen queries without any reply the wire probes stop (each costs seconds)
 						} else {
 							o2.Rcode = rcodeName(r.Rcode)
 							o2.Source, o2.AddrOK = "", false
